@@ -1,2 +1,2 @@
 # Properties whose check has been validated on the unchanged tree and is registered in MANIFEST.json.
-READY = ["C19"]
+READY = ["C19", "C20"]
